@@ -152,7 +152,7 @@ Qed.
 Lemma srcuni_incl L1 L2 : incl L1 L2 -> srcuni L2 -> srcuni L1.
 Proof. intros I U x y q Hx Hy. apply U; apply I; assumption. Qed.
 
-Lemma btuni_incl L1 L2 : incl L1 L2 -> btuni L2 -> btuni L1.
+Lemma btuni_incl P L1 L2 : incl L1 L2 -> btuni P L2 -> btuni P L1.
 Proof. intros I U x y q Hx Hy. apply U; apply I; assumption. Qed.
 
 (** same source and compatible key names for routes with the same pattern *)
@@ -197,16 +197,16 @@ Proof.
         -- apply in_app_iff. right. left. reflexivity.
 Qed.
 
-Lemma add_routes_flag vs : forall d L d', ReprV d L -> uni L -> ReprF d ->
-  add_routes d vs = inl d' -> btuni (L ++ vs) -> ReprF d'.
+Lemma add_routes_flag P vs : forall d L d', ReprV d L -> uni L -> ReprF P d ->
+  add_routes d vs = inl d' -> btuni P (L ++ vs) -> ReprF P d'.
 Proof.
   induction vs as [|v vs IH]; intros d L d' R U F E B; simpl in E.
   - inversion E; subst. exact F.
   - pose proof (add_routes_spec [v] d L R U) as A. simpl in A.
     destruct (m_add1 d v) as [d1|e] eqn:E1; [|discriminate].
     destruct A as (V & R1 & U1).
-    assert (F1 : ReprF d1).
-    { apply (add1_flag d L v d1 R F E1). eapply btuni_incl; [|exact B].
+    assert (F1 : ReprF P d1).
+    { apply (add1_flag P d L v d1 R F E1). eapply btuni_incl; [|exact B].
       intros x Hx. apply in_app_iff in Hx. apply in_app_iff. destruct Hx as [Hx|[Hx|[]]]; [left; exact Hx | right; left; exact Hx]. }
     apply (IH d1 (L ++ [v]) d' R1 U1 F1 E). rewrite <- app_assoc. exact B.
 Qed.
@@ -215,6 +215,8 @@ Qed.
 
 Section Remove.
 Variable fx : fixes.
+Variable PF : nat -> bool.   (* the sources for which the node flags are claimed *)
+Notation ReprF := (ReprFacts.ReprF PF).
 Notation del_routes := (del_routes db (m_del1 fx)).
 Notation del_rules := (del_rules db (m_del1 fx)).
 Notation hit := (hit fx).
@@ -235,7 +237,7 @@ Proof.
     destruct (rpat v) as [p|] eqn:EP; [|congruence].
     assert (Hhit : hit r v v = true).
     { unfold ReprFacts.hit. rewrite EP. rewrite (proj2 (has_pat_rpat p v) EP). rewrite <- HvS. apply del_matcher_self. }
-    destruct (del1_spec fx d L r v R F (ex_intro _ v (conj HvL Hhit))) as (d1 & E1 & R1 & F1).
+    destruct (del1_spec PF fx d L r v R F (ex_intro _ v (conj HvL Hhit))) as (d1 & E1 & R1 & F1).
     rewrite E1. inversion NDv as [|? ? Hnotv NDv']; subst.
     destruct (IH d1 _ R1 F1) as (d' & E' & R' & F'); [|exact NDv'| |].
     + intros v' Hv'. destruct (H v' (or_intror Hv')) as (A & B & C). split; [|split; assumption].
@@ -286,8 +288,7 @@ Record KInv (K : list rule) : Prop := {
   k_keys : NoDup (map rkey K);
   k_valid : forall x, In x (routes K) -> rpat x <> None;
   k_pats : fix_F4 fx = false -> forall r, In r K -> NoDup (map rpat (routes_of r));
-  k_uni : uni (routes K);
-  k_bt : btuni (routes K) }.
+  k_uni : uni (routes K) }.
 
 Lemma NoDup_map_incl_filter {A B} (f : A -> B) (P : A -> bool) l : NoDup (map f l) -> NoDup (map f (filter P l)).
 Proof.
